@@ -536,3 +536,92 @@ def rule_copy_pairs_agree(ctx):
                              (minority[1][0][0], inv, minority[0], inv, ", ".join(sorted(set(names) - {minority[0]}))))
     ctx.floor("COPYPAIR", 3, n, "(input objects handed to more than one copy helper)")
     return n
+
+
+# writer call -> (info call, indices of the info call's out-parameters that may decide whether the writer runs)
+PRESENCE = {
+    "GRwritelut": ("GRgetlutinfo", (1, 2, 3, 4)),
+    "SDsetdimscale": ("SDdiminfo", (3,)),
+}
+
+
+def rule_presence_decided_by_info(ctx):
+    """PRESENCE (C18): whether an optional part of an object exists — a palette, a dimension scale — is what the library's info call says
+    about it (GRgetlutinfo's component count / entries, SDdiminfo's scale type), for every kind of object.  The conditions
+    hrepack puts around the call that writes that part to the output may therefore read only those out-parameters (and the
+    status of the read call just before).  A condition that also looks at the *object* (its component count, the size of the
+    dimension) drops the part for some objects that have one: palettes of multi-component images, scales of unlimited
+    dimensions."""
+    from .codec import ast_walk
+    prog = ctx.prog
+    n = 0
+    for f in prog.funcs:
+        if not f.rel.startswith("mfhdf/hrepack/") or f.rel.endswith("hrepacktst.c") or not f.raw.get("ast"):
+            continue
+        calls = list(f.calls())
+        for writer, (info, idxs) in PRESENCE.items():
+            if not any(c[1] == writer for _b, _i, _s, c in calls):
+                continue
+            allowed = set()
+            for _b, _i, _s, c in calls:
+                if c[1] == info:
+                    for k in idxs:
+                        if k < len(c[3]):
+                            a = strip(c[3][k])
+                            if kind(a) == "addr" and kind(strip(a[1])) == "var":
+                                allowed.add(strip(a[1])[1])
+            if not allowed:
+                continue
+            # locals derived only from allowed ones (has_pal = f(r_ncomp, ..)) and statuses of read calls
+            derived = {}
+            for _b, _i, _s, x in f.nodes(True):
+                if x[0] == "asg" and x[1] == "=" and kind(strip(x[2])) == "var":
+                    vs = {y[1] for y in walk(x[3], True) if y[0] == "var"}
+                    cs = [y[1] for y in walk(x[3], True) if y[0] == "call"]
+                    derived.setdefault(strip(x[2])[1], []).append((vs, cs, x))
+            sites = []
+
+            def vis(nd, st):
+                exprs = [nd[1]] if nd[0] in ("s", "if") and nd[1] is not None else []
+                for e in exprs:
+                    if any(c[1] == writer for c in calls_in(e, True)):
+                        sites.append((nd, list(st)))
+                return True
+
+            from .facts import calls_in
+            ast_walk(f.raw["ast"], vis)
+            for nd, st in sites[:1]:
+                n += 1
+                key = "PRESENCE:%s:%s" % (f.name, writer)
+                line = nd[-3] if isinstance(nd[-3], int) else f.line
+                bad = None
+                for s_ in st:
+                    if s_[0] != "if":
+                        continue
+                    cvars = {y[1] for y in walk(s_[1], True) if y[0] == "var"}
+                    if not (cvars & (allowed | set(derived))):
+                        continue  # an unrelated condition (loop over dimensions, option tests) is not a presence decision
+                    for v in cvars:
+                        if v in allowed:
+                            continue
+                        defs = derived.get(v, [])
+                        ok = bool(defs) and all((vs <= allowed and not cs) or (cs and not (vs - allowed - {a_ for a_ in vs})) for vs, cs, _x in defs)
+                        # a status variable: assigned from a call (the read of the part)
+                        if defs and all(cs for _vs, cs, _x in defs):
+                            ok = True
+                        if defs and all(vs <= allowed for vs, _cs, _x in defs):
+                            ok = True
+                        if not ok:
+                            bad = (v, render(s_[1])[:70])
+                        else:
+                            # a derived flag: its defining expression must not read anything else either
+                            for vs, cs, x in defs:
+                                extra = vs - allowed
+                                if extra and not cs:
+                                    bad = (sorted(extra)[0], render(x[3])[:70])
+                if bad:
+                    ctx.violated("PRESENCE", key, f.where(line), "whether %s() runs also depends on `%s` (`%s`), which is not what %s() reports about the part: objects that have the part lose it when that condition fails" % (writer, bad[0], bad[1], info))
+                else:
+                    ctx.holds("PRESENCE", key, f.where(line), "%s() runs exactly when %s() reported the part (%s)" % (writer, info, ", ".join(sorted(allowed))), nontrivial=True)
+    ctx.floor("PRESENCE", 2, n, "(optional parts copied under a presence test)")
+    return n
